@@ -129,7 +129,9 @@ def check_props(prop_files, scratch):
 
 # --------------------------------------------------------------------------- Gallina literals
 def cq(x):
-    """exact rational literal for a float / int / Fraction"""
+    """exact rational literal for a float / int / Fraction (a non-finite float becomes a sentinel no model produces)"""
+    if isinstance(x, float) and (x != x or x in (float("inf"), float("-inf"))):
+        return "(Qmake 123456789123456789 7)"
     fr = Fraction(x)
     return "(Qmake (%d) %d)" % (fr.numerator, fr.denominator)
 
@@ -328,3 +330,62 @@ KERNEL_TB = [
     "objects, float->Q literal printer, comparison evaluated inside Coq)",
     "numpy/scipy semantics of the primitives the models mirror (ldexp, frexp, clip, masks, sparse formats)",
 ]
+
+
+# --------------------------------------------------------------------------- regenerated structural facts
+def facts_obligations(rep, prop, scratch):
+    """Regenerate Facts.v from /repo's working tree, compile it, and check the per-run obligations of `prop`
+    (coq/factprops/Facts<prop>.v: `forallb classifier list = true` by vm_compute). Returns True if all hold."""
+    from . import facts
+    gen = os.path.join(scratch, "gen")
+    os.makedirs(gen, exist_ok=True)
+    t0 = time.time()
+    try:
+        out = facts.extract()
+    except Exception as e:
+        rep.cov["obligations"] += 1
+        rep.broken("facts:extractor", "the fact extractor failed on the current source: %r" % (e,), {"error": repr(e)})
+        return False
+    facts.emit(out, os.path.join(gen, "Facts.v"))
+    rep.cov.setdefault("facts", {})["records"] = {k: len(v) for k, v in out.items()}
+    args = ["timeout", "300", "coqc", "-Q", gen, "Gen", "-R", COQ, "Verif", "-w", COQ_WARN]
+    rc, o = sh(args + [os.path.join(gen, "Facts.v")], timeout=330, cwd=gen)
+    if rc != 0:
+        rep.cov["obligations"] += 1
+        rep.broken("facts:compile", "the regenerated Facts.v does not compile", {"output": o[-2000:]})
+        return False
+    src = os.path.join(COQ, "factprops", "Facts%s.v" % prop)
+    txt = open(src).read()
+    names = re.findall(r"^\s*Theorem\s+(\w+)", txt, flags=re.M)
+    rep.cov["obligations"] += len(names)
+    dst = os.path.join(gen, "Facts%s.v" % prop)
+    shutil.copy(src, dst)
+    rc, o = sh(args + [dst], timeout=330, cwd=gen)
+    rep.cov["facts"]["wall_s"] = round(time.time() - t0, 1)
+    rep.cov["facts"]["obligation_theorems"] = names
+    if rc == 0:
+        rep.cov["discharged"] += len(names)
+        return True
+    # which theorem failed, and which records offend
+    m = re.search(r'File "[^"]*", line (\d+)', o)
+    failed = None
+    if m:
+        line = int(m.group(1))
+        before = txt.splitlines()[:line]
+        ths = [re.match(r"\s*Theorem\s+(\w+)", l) for l in before]
+        ths = [t.group(1) for t in ths if t]
+        failed = ths[-1] if ths else None
+    off = os.path.join(gen, "Offenders.v")
+    shutil.copy(os.path.join(COQ, "factprops", "Offenders.v"), off)
+    rc2, o2 = sh(args + [off], timeout=330, cwd=gen)
+    offenders = {}
+    for blk in re.split(r"(?m)^\s*= ", o2):
+        mm = re.match(r'\("(\w+)",\s*(.*?)\)\s*:\s', blk, flags=re.S)
+        if mm and mm.group(2).strip() != "[]":
+            offenders[mm.group(1)] = " ".join(mm.group(2).split())[:1500]
+    rep.cov["discharged"] += max(0, len(names) - 1)
+    rep.broken("facts:%s" % (failed or "obligation"),
+               "structural obligation %s over the facts regenerated from /repo no longer holds" % (failed or "(unknown)"),
+               {"kind": "facts", "theorem": failed, "offending_records": offenders, "coq_output": o[-1200:],
+                "note": "theorem %s in coq/factprops/Facts%s.v (a vm_compute proof over the regenerated site inventory) fails" % (failed, prop)})
+    return False
